@@ -26,6 +26,9 @@ def run(ck):
     ck.mc("MCFdIO", "C20_mc.cfg", workers=8, timeout=1200)
     for m in MUTS:
         ck.mc_must_fail("MCFdIO", "C20_asfound_%s.cfg" % m, workers=4, timeout=600)
+    # liveness: under fair scheduling and an operating system that moves at least one byte per successful call, both loops end
+    ck.mc("FdLoop", "C20_live.cfg", workers=4, timeout=600)
+    ck.mc_must_fail("FdLoop", "C20_asfound_eintr_steps_back.cfg", workers=2, timeout=300)
     exe = vlib.build("san", vlib.harness_sources(), "vh")
     n = 20000 if thorough else 600
     tp = os.path.join(ck.dir, "v.ndjson")
